@@ -337,3 +337,8 @@ def run(chk, S: Session):
     rb2 = chk.rule("R-C04-B2", "the base case of the equivariance argument decided by rules of C09: every prior's stored noise factor is linear in the base output scale (factories, transitions) and the "
                    "convenience constructors forward the caller's output_scale unchanged", floor=20)
     borrow(chk, S, rb2, "C09", lambda r, c: r in ("R-C09-4", "R-C09-8") or (r == "R-C09-5" and "forwards" in c))
+    # an option passed to a constructor arrives in the attribute of its own name (the rules above read options through those attributes)
+    from .ctor_wiring import ctor_wiring_rules
+
+    rcw = chk.rule("R-C04-W", "constructor wiring of the calibrating solver classes: every attribute that carries a constructor parameter's name holds that parameter, not another one", floor=6)
+    ctor_wiring_rules(chk, S, rcw, [SOLVERS + ".solver_mle", SOLVERS + ".solver_dynamic"])
